@@ -105,6 +105,7 @@ func (s *State) get(k HeapKey) string {
 		*s.used = append(*s.used, k)
 	case stBase:
 		t = s.c.declare(fmt.Sprintf("%s@%d", k.Name, s.epoch), k.Sort)
+		s.c.byteHeapAxiom(k, t, false)
 		if s.immutFrom != nil && s.c.immutableKey(k.Name) {
 			s.c.immutablePreserved(k, t, s.immutFrom)
 		}
@@ -145,6 +146,7 @@ func (s *State) get(k HeapKey) string {
 			cellSort := strings.TrimSuffix(strings.TrimPrefix(k.Sort, "(Array Int "), ")")
 			for i, r := range rs {
 				fresh := s.c.declare(fmt.Sprintf("%s@L%d_c%d", k.Name, s.epoch, i), cellSort)
+				s.c.byteHeapAxiom(k, fresh, true)
 				if k.Ref != "" {
 					s.c.heapRefAxiom(k, fresh, true, s.get(allocKey))
 				}
@@ -157,6 +159,7 @@ func (s *State) get(k HeapKey) string {
 			s.c.axiom(fmt.Sprintf("(>= %s %s)", t, s.entry.get(k)), t)
 		} else if s.modAll || s.mod[k.Name] {
 			t = s.c.declare(fmt.Sprintf("%s@L%d", k.Name, s.epoch), k.Sort)
+			s.c.byteHeapAxiom(k, t, false)
 			if s.c.immutableKey(k.Name) {
 				s.c.immutablePreserved(k, t, s.entry)
 			}
